@@ -201,7 +201,10 @@ def build(pp, prog, use_hook=None) -> Built:
         elif op == "call":          # expr()
             v = ref(a[0])()
         elif op == "set_results_name":
-            v = ref(a[0]).set_results_name(a[1], list_all_matches=bool(a[2]) if len(a) > 2 else False)
+            if len(a) > 3 and a[3] == "camel":      # the pre-PEP8 spelling of the keyword
+                v = ref(a[0]).set_results_name(a[1], listAllMatches=bool(a[2]))
+            else:
+                v = ref(a[0]).set_results_name(a[1], list_all_matches=bool(a[2]) if len(a) > 2 else False)
         elif op == "lw_inplace":    # documented in-place mutator of the (fresh) composite itself
             ref(a[0]).leave_whitespace()
             continue
